@@ -488,11 +488,10 @@ impl Engine for Decode {
                                 Err(p) => a19.violate(format!("errpos/panic/{}/{}", fam, panic_site(&p)), format!("{} corrupted {}: panic {}", id, hex(&b), p), replay),
                                 Ok(Ok(())) => a19.violate(format!("errpos/accepted/{}", fam), format!("{} value {:?} with byte {} := {:#x} ({}) accepted", id, v, f.at, mv, hex(&b)), replay),
                                 Ok(Err(e)) => {
-                                    let content_kind = matches!(e.kind, ErrorKind::InvalidData | ErrorKind::InvalidEnumTag);
+                                    // the property speaks of the position only; which error kind names a bad
+                                    // byte pattern is not judged here (C10 judges Parse vs 'need more input')
                                     let where_ = nesting(&d, f.at, base);
-                                    if !content_kind {
-                                        a19.violate(format!("errpos/kind/{}/{}/{}", kind_name(&e), where_, fam), format!("{} value {:?} with bytes[{}..{}] := {:#x} ({}): reported {:?}, expected a content error at {}..{}", id, v, f.at, f.at + f.size, mv, hex(&b), e, lo, hi), replay);
-                                    } else if !(e.pos >= lo && e.pos < hi) {
+                                    if !(e.pos >= lo && e.pos < hi) {
                                         a19.violate(format!("errpos/pos/{}/{}", where_, fam), format!("{} value {:?} with bytes[{}..{}] := {:#x} ({}): reported {:?}, offending bytes are {}..{}", id, v, f.at, f.at + f.size, mv, hex(&b), e, lo, hi), replay);
                                     }
                                     a19.distinct.insert(format!("{}:{}:{}:{}", id, where_, if is_tag { "tag" } else { "data" }, lo));
